@@ -27,7 +27,7 @@ type c25Case struct {
 	Seed    int64    `json:"seed"`
 	Auto    bool     `json:"auto_reconnect"`
 	Faults  []string `json:"faults"`
-	CloseAt string   `json:"close_at"` // steady | during-outage | right-after-fault
+	CloseAt string   `json:"close_at"` // steady | during-outage | right-after-fault | forced-during-dial
 	States  []string `json:"reported_states,omitempty"`
 	Detail  string   `json:"detail,omitempty"`
 }
@@ -295,6 +295,40 @@ func c25One(c *fw.Ctx, cs c25Case) {
 			finish("right-after-fault")
 			return
 		}
+		if cs.CloseAt == "forced-during-dial" && fi == len(cs.Faults)-1 && cs.Auto {
+			// forced race: the reconnect attempt has opened its secure channel but not stored it yet when Close runs
+			parked, release := make(chan struct{}), make(chan struct{})
+			var once sync.Once
+			opcua.VerifSetHook(func(point string) {
+				if point == "cl.dial.opened" {
+					once.Do(func() {
+						close(parked)
+						<-release
+					})
+				}
+			})
+			px.SetOutage(false)
+			px.DropAll(false) // one more drop in case the previous fault has been repaired already
+			if !fw.WaitBeats(parked, 10000) {
+				opcua.VerifSetHook(nil)
+				close(release)
+				c.Class("forced-race-not-reached", 1)
+				finish("right-after-fault")
+				return
+			}
+			go func() {
+				// Close runs to its end while the attempt is held, then the attempt goes on
+				for i := 0; i < 2000 && cl.State() != opcua.Closed; i++ {
+					time.Sleep(time.Millisecond)
+				}
+				time.Sleep(3 * time.Millisecond)
+				close(release)
+			}()
+			c.Class("forced-race:close-while-reconnect-attempt-holds-an-open-channel", 1)
+			finish("forced-during-dial")
+			opcua.VerifSetHook(nil)
+			return
+		}
 		time.Sleep(time.Duration(r.Intn(150)) * time.Millisecond)
 	}
 	// the faults have stopped and the server is reachable
@@ -345,6 +379,9 @@ func c25Run(c *fw.Ctx) error {
 		r := c.Rng("c25", i)
 		k := int(i / int64(c.NBatch))
 		cs := c25Case{Index: i, Seed: r.Int63(), Auto: k%4 != 3, CloseAt: []string{"steady", "during-outage", "right-after-fault"}[k%3]}
+		if k%8 == 5 {
+			cs.Auto, cs.CloseAt = true, "forced-during-dial"
+		}
 		nf := 1 + r.Intn(3)
 		for f := 0; f < nf; f++ {
 			kind := kinds[(k+f*5)%len(kinds)]
@@ -375,7 +412,7 @@ func init() {
 	fw.Register("C25", fw.Spec{
 		Plan: func(tier string) fw.Plan {
 			p := fw.Plan{Batches: 8, TimeoutS: 1500, MinNontrivial: 56, Level: "exploration",
-				Rule:        "the real client through a fault proxy to the real server in a child process; 1-4 faults per history: connections closed (FIN) or reset, outages of 30-430 ms during which connects are refused, server restarts on a new process (all sessions lost), the next (re)connection cut after 1-1500 forwarded bytes (inside HEL/ACK, OPN, CreateSession, ActivateSession, namespace read), the same cut on the first connect; 3 of 4 histories with auto-reconnect; Close in steady state, during an outage or 0-30 ms after the last fault; oracle: every reported transition is in the documented set, with auto-reconnect the client is Connected with a working Read within 20000 heartbeats of the last fault, Close returns, afterwards State() and every later report are Closed, the last report is Closed, the proxy sees no further connection attempt and no goroutine executing client code is left (300 quiet heartbeats in a row within 6000); distinct = fault histories",
+				Rule:        "the real client through a fault proxy to the real server in a child process; 1-4 faults per history: connections closed (FIN) or reset, outages of 30-430 ms during which connects are refused, server restarts on a new process (all sessions lost), the next (re)connection cut after 1-1500 forwarded bytes (inside HEL/ACK, OPN, CreateSession, ActivateSession, namespace read), the same cut on the first connect; 3 of 4 histories with auto-reconnect; Close in steady state, during an outage, 0-30 ms after the last fault, or (forced race, hook cl.dial.opened) while a reconnect attempt has opened its secure channel but not stored it yet; oracle: every reported transition is in the documented set, with auto-reconnect the client is Connected with a working Read within 20000 heartbeats of the last fault, Close returns, afterwards State() and every later report are Closed, the last report is Closed, the proxy sees no further connection attempt and no goroutine executing client code is left (300 quiet heartbeats in a row within 6000); distinct = fault histories",
 				Assumptions: []string{"documented lifecycle read from connstate.go: Closed -> Connecting -> Connected -> Disconnected -> Reconnecting -> Connected, Closed from anywhere, repeated reports of a state allowed; the state after a failed first Connect is recorded, not judged"}}
 			if tier == "thorough" {
 				p.Batches, p.TimeoutS, p.MinNontrivial = 16, 3400, 2500
